@@ -79,14 +79,25 @@ fn eq<'a, T: Queryable>(lhs_state: State<'a, T>, rhs_state: State<'a, T>) -> boo
         _ => false,
     }
 }
-/// Compare two JSON values for equality.
-/// For numbers, it should implement interoperability for integer and float
+/// Compare two JSON values for equality (RFC 9535 2.3.5.2.2).
+/// Numbers are equal when they denote the same mathematical value, whether stored as integer
+/// or float; arrays and objects are compared structurally with the same rule for the numbers
+/// they contain.
 fn eq_json<T: Queryable>(lhs: &T, rhs: &T) -> bool {
     let lhs_f64 = lhs.as_f64().or_else(|| lhs.as_i64().map(|v| v as f64));
     let rhs_f64 = rhs.as_f64().or_else(|| rhs.as_i64().map(|v| v as f64));
 
     if let (Some(lhs_num), Some(rhs_num)) = (lhs_f64, rhs_f64) {
-        (lhs_num - rhs_num).abs() < f64::EPSILON
+        match (lhs.as_i64(), rhs.as_i64()) {
+            (Some(l), Some(r)) => l == r,
+            _ => lhs_num == rhs_num,
+        }
+    } else if let (Some(l), Some(r)) = (lhs.as_array(), rhs.as_array()) {
+        l.len() == r.len() && l.iter().zip(r.iter()).all(|(a, b)| eq_json(a, b))
+    } else if let (Some(l), Some(r)) = (lhs.as_object(), rhs.as_object()) {
+        l.len() == r.len()
+            && l.iter()
+                .all(|(k, v)| r.iter().any(|(k2, v2)| k == k2 && eq_json(*v, *v2)))
     } else {
         lhs == rhs
     }
